@@ -13,7 +13,7 @@ OLD = "1.2.3"
 
 def random_conf(rng, tools):
     return dict(vcs=rng.choice(tools), cfg=list(rng.choice(CFG_TRIPLES)), fcommit=rng.choice(["unset", "unset", "yes", "no"]), ftag=rng.choice(["unset", "unset", "yes", "no"]),
-                fpush=rng.choice(["unset", "unset", "yes", "no"]), pre=rng.choice(["absent", "ok", "fail"]), post=rng.choice(["absent", "ok", "fail"]), hooksrc=rng.choice(["config", "cli"]),
+                fpush=rng.choice(["unset", "unset", "yes", "no"]), pre=rng.choice(["absent", "ok", "fail", "unstartable"]), post=rng.choice(["absent", "ok", "fail", "unstartable"]), hooksrc=rng.choice(["config", "cli"]),
                 dirty=rng.random() < 0.25, allow=rng.random() < 0.4, tagmsg=rng.random() < 0.6, remote=rng.random() < 0.7, dry=rng.random() < 0.2, fetch=rng.random() < 0.7,
                 failat=rng.choice(FAILABLE + ["none"] * 6), ignore=rng.random() < 0.2, unique=rng.random() < 0.25)
 
@@ -36,7 +36,8 @@ def replay(job):
         for which, key in (("pre", "pre_commit_hook"), ("post", "post_commit_hook")):
             if conf[which] != "absent":
                 hp = os.path.join(proj.root, "%s_hook.sh" % which)
-                fakevcs.write_hook(hp, which, fdir, succeed=conf[which] == "ok")
+                # an unstartable hook exists (config and option validation accept it) but cannot be executed: no executable bit / no interpreter
+                fakevcs.write_hook(hp, which, fdir, succeed=conf[which] == "ok", unstartable=(("noexec", "badinterp")[seed % 2] if conf[which] == "unstartable" else None))
                 hooks[which] = "%s_hook.sh" % which
                 if conf["hooksrc"] == "config":
                     extra[key] = "%s_hook.sh" % which
@@ -71,6 +72,13 @@ def replay(job):
             log.append(dict(kind="cmd", name=e[1], old="", new=""))
         else:
             log.append(dict(kind="hook", name=e[1], old=e[2], new=e[3]))
+    # a hook that could not be started left no marker of its own: that bumpver ATTEMPTED it is taken from bumpver's hook.start event (the run must
+    # end there, so the attempt is the last entry; if the run went on, the entries after it make the log differ from the expected one)
+    for which in ("pre", "post"):
+        if conf[which] == "unstartable":
+            for e in r.events:
+                if e.get("ev") == "hook.start" and ("%s_hook" % which) in (e.get("path") or ""):
+                    log.append(dict(kind="hook", name=which, old=e.get("old") or "", new=e.get("new") or ""))
     # what the env-guarded hooks inside bumpver recorded, as step names (the stateful trace spec consumes them with the actions of Pipeline.tla)
     hooked = []
     for e in r.events:
@@ -104,9 +112,9 @@ def _invalid_cfg(job):
 def run(ctx):
     drive.setup(hooks=False)
     tools = ctx.pick(["git"], ["git", "hg"])
-    res = tlc.run(tlc.module_text("mc/MC_C10.tla"), "SPECIFICATION Spec\nCONSTANTS Tools = {%s}\n Extras = %s\nINVARIANT StepsAsConfigured\nINVARIANT ExpectedAgrees\nCHECK_DEADLOCK FALSE\n"
-                  % (", ".join('"%s"' % t for t in tools), ctx.pick("{FALSE}", "{FALSE, TRUE}")), name="MC_C10", workers=16, timeout=3400, xmx="16g")
-    ctx.add_design(res, "MC_C10 full configuration product for %s (5 config triples x 27 flag sets x 9 hook pairs x 2 hook sources x 2^6 x 8 failure points)" % "/".join(tools))
+    res = tlc.run(tlc.module_text("mc/MC_C10.tla"), "SPECIFICATION Spec\nCONSTANTS Tools = {%s}\n Extras = %s\n HookKinds = %s\nINVARIANT StepsAsConfigured\nINVARIANT ExpectedAgrees\nCHECK_DEADLOCK FALSE\n"
+                  % (", ".join('"%s"' % t for t in tools), ctx.pick("{FALSE}", "{FALSE, TRUE}"), ctx.pick('{"absent", "ok", "fail"}', '{"absent", "ok", "fail", "unstartable"}')), name="MC_C10", workers=16, timeout=3400, xmx="16g")
+    ctx.add_design(res, "MC_C10 full configuration product for %s (5 config triples x 27 flag sets x %d hook pairs x 2 hook sources x 2^6 x 8 failure points)" % ("/".join(tools), ctx.pick(9, 16)))
     if res.violation:
         ctx.violation(dict(clause="design:" + res.violation), case=dict(state=res.trace[-1:]), check="design")
     if res.distinct < 10 ** 6:
@@ -121,6 +129,11 @@ def run(ctx):
                 for c in ("unset", "yes", "no"):
                     confs.append(dict(vcs="git", cfg=list(tr), fcommit=a, ftag=b, fpush=c, pre="absent", post="absent", hooksrc="config", dirty=False, allow=False,
                                       tagmsg=True, remote=True, dry=False, fetch=True, failat="none", ignore=False, unique=False))
+    for pre, post in (("unstartable", "ok"), ("ok", "unstartable"), ("unstartable", "unstartable"), ("fail", "unstartable")):     # hooks that exist but cannot be run
+        for src in ("config", "cli"):
+            for k in (0, 1):
+                confs.append(dict(vcs="git", cfg=[True, True, True], fcommit="unset", ftag="unset", fpush="unset", pre=pre, post=post, hooksrc=src, dirty=False, allow=False,
+                                  tagmsg=True, remote=True, dry=False, fetch=False, failat="none", ignore=False, unique=False))
     for f in FAILABLE:                           # every failure point with everything switched on, both hooks present
         for tool in ("git", "hg"):
             confs.append(dict(vcs=tool, cfg=[True, True, True], fcommit="unset", ftag="unset", fpush="unset", pre="ok", post="ok", hooksrc="cli", dirty=False, allow=False,
